@@ -741,6 +741,7 @@ class World:
         self.escaped = []       # exceptions that escaped handle_message
         self.check_errors = []
         self.reply_hooks = []   # callables(body) run at the instant a reply body is written
+        self.dispatching = None
         _AUDIT['hits'].clear()
         _AUDIT['on'] = True
 
@@ -822,13 +823,16 @@ class World:
             rec.update(meta)
         if mid is not None:
             self.sent[mid] = rec
+        self.dispatching = mid          # observation: which request the daemon is handling synchronously
         try:
             self.arb.ctrl.handle_message([cid, payload])
         except Stalled:
+            self.dispatching = None
             raise
         except BaseException as e:           # pyzmq would log it; the client waits forever
             self.escaped.append((mid, type(e).__name__, str(e)[:200]))
             rec['escaped'] = type(e).__name__
+        self.dispatching = None
         rec['frames_sync'] = len(self.stream.frames) - n0
         return rec
 
